@@ -97,6 +97,8 @@ def body(run):
                 mbm *= 6
                 many = fz.fuse(pair['src_fn'], pair['ref_fn'], run.work / 'many.tif', max_block_mem=mbm, **kw)
         except Exception as ex:
+            if type(ex).__name__ not in ('BlockSizeError', 'ImageContentError'):
+                raise
             dist['error:' + type(ex).__name__] = dist.get('error:' + type(ex).__name__, 0) + 1
             continue
         rows, cols, ratio = block_edges(pair['src_fn'], pair['ref_fn'], 'auto', utils.overlap_for_kernel(kshape), mbm)
@@ -146,8 +148,29 @@ def body(run):
                 for (r, c) in np.argwhere(dm):
                     near[max(0, r - reach_r):r + reach_r + 1, max(0, c - reach_c):c + reach_c + 1] = True
                 if not (pbad.any(axis=0) & ~near).any():
-                    cause = 'footprint-edge-sliver'
+                    cause = 'validity-sliver'
                 problems['validity of processing pixels differs at'] = [[int(r), int(c)] for r, c in np.argwhere(dm)[:6]]
+            if cause == 'other' and one['proc_crs'] == 'ref' and not aligned:
+                # the same artefact inside a block's overlap ring (e.g. next to a hole) never reaches the parameter mask: ask directly
+                # whether some block sees a processing pixel valid that the whole-window down-sampling sees invalid, or vice versa
+                from harness import impl_e2e as e2e
+                sl = e2e.block_x_validity_diffs(pair['src_fn'], pair['ref_fn'], mbm, kshape)
+                if sl:
+                    reach_r, reach_c = kshape[0] // 2 + 2, kshape[1] // 2 + 2
+                    near = np.zeros(pa.shape[1:], bool)
+                    for (r, c) in sl:
+                        near[max(0, r - reach_r):r + reach_r + 1, max(0, c - reach_c):c + reach_c + 1] = True
+                    if not (pbad.any(axis=0) & ~near).any():
+                        cause = 'validity-sliver'
+                    problems['a block sees another validity than the whole window at processing pixels'] = [list(p) for p in sl[:6]]
+            if cause == 'other' and ups == 'nearest' and one['proc_crs'] == 'ref' and not pbad.any() and list(problems) == ['corrected image']:
+                # parameters identical, corrected differs with nearest up-sampling: are all differing source pixels ones whose centre lies exactly
+                # on a processing-pixel edge (a nearest-neighbour tie, which GDAL breaks from block-relative coordinates)?
+                def on_edge(idx, off):
+                    v = off + (idx + 0.5) / g.ratio
+                    return abs(v - round(v)) < 1e-9
+                if all(on_edge(r, g.off_rc[0]) or on_edge(c, g.off_rc[1]) for (_, r, c) in np.argwhere(bad_px)):
+                    cause = 'nearest-tie'
             run.add_violation('result depends on the block partition', desc, expected='identical parameters / corrected',
                               observed=problems, signature=dict(kind='blocking', cause=cause))
     run.cov['evaluations'] += ncorr + len(ov_cases) + len(ks_cases)
